@@ -20,7 +20,7 @@ import (
 	"verif/mc/refmodel"
 )
 
-var ops = []string{"inject", "device-apply", "spec-apply", "host-renumber", "host-retype", "write-back"}
+var ops = []string{"inject", "device-apply", "spec-apply", "host-renumber", "host-retype", "write-back", "inject-both", "inject-other"}
 
 type Case struct {
 	Version  string   `json:"declared_version"`
@@ -81,6 +81,27 @@ func eval(c Case, dir string) hx.Result {
 			{Name: "dev", ContainerEdits: specs.ContainerEdits{DeviceNodes: []*specs.DeviceNode{node(c.DevNode, nodes)}, Env: []string{"DEV=1"}}},
 			{Name: "other", ContainerEdits: specs.ContainerEdits{Env: []string{"OTHER=1"}}},
 		}
+		if c.Version == "1.0.0" {
+			// rich variant: every edit kind at spec level and in both devices, so that anything an
+			// injection writes through a shared pointer or slice of the cached Spec shows up
+			rich := func(tag string) specs.ContainerEdits {
+				tm := 3
+				return specs.ContainerEdits{
+					Env:            []string{"E_" + tag + "=1", "SHARED=" + tag},
+					Mounts:         []*specs.Mount{{HostPath: "/h/" + tag, ContainerPath: "/c/" + tag, Options: []string{"ro", tag}}, {HostPath: "/h2/" + tag, ContainerPath: "/shared"}},
+					Hooks:          []*specs.Hook{{HookName: "prestart", Path: "/hook/" + tag, Args: []string{"a", tag}, Env: []string{"H=" + tag}, Timeout: &tm}},
+					IntelRdt:       &specs.IntelRdt{ClosID: "clos-" + tag, L3CacheSchema: "L3:" + tag, EnableCMT: tag == "spec"},
+					AdditionalGIDs: []uint32{7, uint32(len(tag))},
+				}
+			}
+			se := rich("spec")
+			se.DeviceNodes = raw.ContainerEdits.DeviceNodes
+			raw.ContainerEdits = se
+			de := rich("dev")
+			de.DeviceNodes = raw.Devices[0].ContainerEdits.DeviceNodes
+			raw.Devices[0].ContainerEdits = de
+			raw.Devices[1].ContainerEdits = rich("other")
+		}
 		original := image(raw)
 		if err := os.WriteFile(filepath.Join(specDir, "s.json"), []byte(original), 0o644); err != nil {
 			panic(err)
@@ -129,6 +150,19 @@ func eval(c Case, dir string) hx.Result {
 				r := rawCopy()
 				wantEdits = r.ContainerEdits
 				appendEdits(&wantEdits, r.Devices[0].ContainerEdits)
+				check = true
+			case "inject-both":
+				_, applyErr = cache.InjectDevices(got, q, "vendor.com/class=other")
+				r := rawCopy()
+				wantEdits = r.ContainerEdits
+				appendEdits(&wantEdits, r.Devices[0].ContainerEdits)
+				appendEdits(&wantEdits, r.Devices[1].ContainerEdits)
+				check = true
+			case "inject-other":
+				_, applyErr = cache.InjectDevices(got, "vendor.com/class=other")
+				r := rawCopy()
+				wantEdits = r.ContainerEdits
+				appendEdits(&wantEdits, r.Devices[1].ContainerEdits)
 				check = true
 			case "device-apply":
 				applyErr = cache.GetDevice(q).ApplyEdits(got)
@@ -237,13 +271,16 @@ func main() {
 	}
 	rec(nil)
 	var cases []Case
-	for _, ver := range []string{"0.3.0", "0.5.0"} {
+	for _, ver := range []string{"0.3.0", "0.5.0", "1.0.0"} {
 		for _, sn := range append([]string{"none"}, nodeTemplates...) {
 			for _, dn := range nodeTemplates {
 				if ver == "0.3.0" && (usesHostPath(sn) || usesHostPath(dn)) {
 					continue
 				}
 				if !r.Thorough() && sn != "none" && sn != "path-only-char" && sn != "type-only-block" && sn != "hostpath-char" {
+					continue
+				}
+				if ver == "1.0.0" && !r.Thorough() && !(dn == "hostpath-char" || dn == "fully-specified" || dn == "type-only-block") {
 					continue
 				}
 				for _, h := range histories {
